@@ -144,3 +144,26 @@ func SizeClass(rng *rand.Rand, segSize int) int {
 		return rng.Intn(24)
 	}
 }
+
+// AlignedFrameShaped builds Data for an entry whose codec prefix (index, term,
+// type, length varints) is 4 bytes long, such that the entry's *payload*, read
+// from its first byte as if it were a frame stream, parses as valid frames: the
+// first 8 payload bytes are [index term type len 0 0 0 0], i.e. a frame header
+// of type index (1 entry / 2 index / 3 commit) with length/CRC 0, followed by an
+// entry frame and a commit frame whose CRC-32C covers exactly that entry frame.
+// The caller must keep Term and Type below 128. len(Data) is 4+8+p+8 < 128.
+func AlignedFrameShaped(rng *rand.Rand) []byte {
+	p := 8 * (1 + rng.Intn(10))
+	b := []byte{0, 0, 0, 0}
+	fr := make([]byte, 8+p)
+	fr[0] = 1
+	binary.LittleEndian.PutUint32(fr[4:], uint32(p))
+	for i := 8; i < len(fr); i++ {
+		fr[i] = byte('f' + i%11)
+	}
+	b = append(b, fr...)
+	c := make([]byte, 8)
+	c[0] = 3
+	binary.LittleEndian.PutUint32(c[4:], crc32.Checksum(fr, castagnoli))
+	return append(b, c...)
+}
